@@ -13,6 +13,7 @@
  * See the License for the specific language governing permissions and
  * limitations under the License.
  */
+#include <unifex/detail/verif_hooks.hpp>
 #include <unifex/manual_event_loop.hpp>
 
 namespace unifex {
@@ -33,6 +34,7 @@ void context::run() {
     }
     lock.unlock();
     task->execute();
+    UNIFEX_VERIF_POINT(402);
     lock.lock();
   }
 }
@@ -44,6 +46,7 @@ void context::stop() {
 }
 
 void context::enqueue(task_base* task) {
+  UNIFEX_VERIF_POINT(401);
   std::unique_lock lock{mutex_};
   bool wasEmpty = (head_ == nullptr);
   if (wasEmpty) {
